@@ -38,8 +38,8 @@ const (
 )
 
 const (
-	c10BlockArenaSize = 8 * vlib.PageSize
-	c10StrArenaSize   = 2 * vlib.PageSize
+	c10BlockArenaSize = 48 * vlib.PageSize
+	c10StrArenaSize   = 16 * vlib.PageSize
 	c10Poison         = 0xA5
 )
 
@@ -345,10 +345,17 @@ func c10GenElf(r *vlib.Rand, names *c10Names) *c10Elf {
 	default:
 		n = r.Range(2, 8)
 	}
+	if r.Chance(1, 60) {
+		// a section table whose byte offsets do not fit 16 bits (the counts themselves are 16-bit fields of the tag)
+		n = r.PickInt([]int{1023, 1024, 1025, r.Range(1026, 1400)})
+	}
 	if n == 0 {
 		return e
 	}
 	e.shndx = uint32(r.Intn(n))
+	if n > 1000 && r.Bool() {
+		e.shndx = uint32(r.Range(1000, n-1))
+	}
 	e.noStrtab = r.Chance(1, 15)
 	for i := 0; i < n; i++ {
 		var s c10Section
